@@ -400,6 +400,59 @@ class Gen:
         return ("ParameterExp", rng.randrange(len(PARAMS)))
 
 
+def arg_matches(a, child, nodes):
+    """Is `child` (an FNode) what the documented promotion of argument `a` must be?  None = not judged here."""
+    if a[0] == "node":
+        return child is nodes[a[1]]
+    if a[0] == "bool":
+        return child.is_bool_constant() and child.bool_constant_value() == a[1]
+    v = arg_value(a)
+    if v is None:
+        return None
+    if v.denominator == 1:                  # integral literal => the Int constant
+        return child.is_int_constant() and type(child.constant_value()) is int and child.constant_value() == v.numerator
+    return (child.is_real_constant() and isinstance(child.constant_value(), Fraction)
+            and child.constant_value() == v)        # a Fraction is always reduced
+
+
+def normalisation_violations(c, n, nodes):
+    """The documented normalisations, checked on one successful constructor call (oracle from the property text)."""
+    bad = []
+    k = c[0]
+    if k == "nary":
+        opn, args = c[1], c[2]
+        if len(args) == 0:
+            want = {"And": ("BOOL_CONSTANT", True), "Or": ("BOOL_CONSTANT", False), "Plus": ("INT_CONSTANT", 0),
+                    "Times": ("INT_CONSTANT", 1)}[opn]
+            if (n.node_type.name, n._content.payload) != want or type(n._content.payload) is not type(want[1]):
+                bad.append("%s() is not the constant %s" % (opn, want[1]))
+        elif len(args) == 1:
+            if arg_matches(args[0], n, nodes) is False:
+                bad.append("%s of one argument is not that argument" % opn)
+        else:
+            if n.node_type.name != opn.upper() or len(n.args) != len(args):
+                bad.append("%s of %d arguments is not an %s node with these arguments" % (opn, len(args), opn.upper()))
+            elif any(arg_matches(a, ch, nodes) is False for a, ch in zip(args, n.args)):
+                bad.append("%s: an argument was not promoted to its canonical constant / node" % opn)
+    elif k == "not":
+        a = c[1]
+        if a[0] == "node" and nodes[a[1]].is_not():
+            if n is not nodes[a[1]].arg(0):
+                bad.append("Not(Not(e)) is not e")
+        elif not n.is_not():
+            bad.append("Not(e) is not a NOT node")
+    elif k == "bin":
+        opn, a, b = c[1], c[2], c[3]
+        want_type = {"GE": "LE", "GT": "LT"}.get(opn, opn.upper())
+        first, second = (b, a) if opn in ("GE", "GT") else (a, b)
+        if n.node_type.name != want_type or len(n.args) != 2:
+            bad.append("%s is not a %s node" % (opn, want_type))
+        elif arg_matches(first, n.arg(0), nodes) is False or arg_matches(second, n.arg(1), nodes) is False:
+            bad.append("%s(a, b): children are not (%s) with canonical constants" % (
+                opn, "b, a" if opn in ("GE", "GT") else "a, b"))
+    return bad
+
+
 def run_history(rng, n_steps, stats):
     """Returns (calls, observations, oracle_violations, final (size, next_id))."""
     from unified_planning.exceptions import UPTypeError, UPExpressionDefinitionError
@@ -447,6 +500,8 @@ def run_history(rng, n_steps, stats):
                 k = kind_of(n)
                 if k in g.pool:
                     g.pool[k].append(nid)
+            for what in normalisation_violations(c, n, g.nodes):
+                viol.append({"what": "documented normalisation not applied: " + what, "step": step, "call": c})
             if snap in by_content and by_content[snap] is not n:
                 viol.append({"what": "same content, two nodes (ids %d, %d)" % (by_content[snap].node_id, nid), "step": step})
             by_content.setdefault(snap, n)
@@ -503,14 +558,20 @@ def run(ctx):
     imports = ["UPV.Model.HashCons", "UPV.Corr.Corr_C16"]
     pre = "Definition D : decls := %s.\n" % DECLS
     bad = ctx.coq_failing(cases, "ok", imports=imports, preamble=pre, shard=10 if ctx.quick else 4, timeout=1500)
-    for h, v in oracle:
+    for h, v in oracle[:10]:
         ctx.fail("oracle", "hash-consing violated on the implementation: %s" % v["what"],
                  ["c16", "identity-oracle"], {"history": raw[h], "violation": v}, True)
-    for i in bad:
-        where = ctx.coq_show("first_diff (model_obs c) (c_obs c) 0%nat", imports=imports,
-                             preamble=pre + "Definition c := %s.\n" % cases[i], timeout=600)
-        model = ctx.coq_show("(List.length (tbl (model_final c)), next_id (model_final c))", imports=imports,
-                             preamble=pre + "Definition c := %s.\n" % cases[i], timeout=600)
+    if len(bad) > 3:
+        ctx.fail("corr", "%d further construction histories disagree with the model (indices %s)" % (len(bad) - 3, bad[3:20]),
+                 ["c16", "corr"], {"indices": bad[3:], "histories": [raw[i] for i in bad[3:8]]}, any(h in bad[3:] for h, _ in oracle))
+    for rank, i in enumerate(bad[:3]):
+        # the diagnosis recompiles the case; only the first few failing cases get one
+        where = "(not computed)" if rank >= 3 else ctx.coq_show(
+            "first_diff (model_obs c) (c_obs c) 0%nat", imports=imports,
+            preamble=pre + "Definition c := %s.\n" % cases[i], timeout=600)
+        model = "(not computed)" if rank >= 3 else ctx.coq_show(
+            "(List.length (tbl (model_final c)), next_id (model_final c))", imports=imports,
+            preamble=pre + "Definition c := %s.\n" % cases[i], timeout=600)
         # the property itself fails here only if the Python-side oracle saw it (reported above)
         ctx.fail("corr", "construction history: implementation and model disagree (corr:C16:create_node/constructors) "
                  "first differing step: %s; model (size,next)=%s" % (where[-60:], model[-60:]), ["c16", "corr"],
